@@ -51,7 +51,16 @@ fn look(w: &World, wi: usize, l: Look) {
 fn judge(w: &World, rep: &mut Report, slate_id: uuid::Uuid, after: &str, full_look: bool, case: &serde_json::Value) {
 	let wal = &w.wallets[1];
 	let txs = wal.all_txs().unwrap_or_default();
-	let e = match txs.iter().find(|t| t.tx_slate_id == Some(slate_id)) {
+	let restored = case["recipient_restored_from_seed"].as_bool().unwrap_or(false);
+	let amount: u64 = case["amount"].as_str().and_then(|a| a.parse().ok()).unwrap_or(0);
+	// (the entries of a wallet restored from its seed carry no slate id: the payment's entry is the received one
+	// crediting its amount)
+	let found = if restored {
+		txs.iter().find(|t| t.amount_credited == amount && matches!(t.tx_type, TxLogEntryType::TxReceived | TxLogEntryType::TxReverted | TxLogEntryType::TxReceivedCancelled))
+	} else {
+		txs.iter().find(|t| t.tx_slate_id == Some(slate_id))
+	};
+	let e = match found {
 		Some(e) => e.clone(),
 		None => {
 			rep.violation("C18|entry-vanished", "the received transaction's log entry vanished", case.clone());
@@ -60,7 +69,25 @@ fn judge(w: &World, rep: &mut Report, slate_id: uuid::Uuid, after: &str, full_lo
 	};
 	let outs = wal.all_outputs().unwrap_or_default();
 	let relinked = case["received_output_relinked_by_an_own_send"].as_bool().unwrap_or(false);
-	let amount: u64 = case["amount"].as_str().and_then(|a| a.parse().ok()).unwrap_or(0);
+	if restored {
+		// Known limitation (see known_findings.json): a restored entry has no kernel to look for, so a wallet restored
+		// from its seed cannot tell a reorganised-away payment from a spent one. That half is reported under one
+		// signature naming the cause; what happens when the payment is mined again keeps its own signatures.
+		let mut probe = Report::new("C18");
+		let out = outs.iter().find(|o| !o.is_coinbase && o.value == amount && o.root_key_id == e.parent_key_id);
+		judge_inner(w, &mut probe, &e, out, after, full_look, case);
+		for v in probe.violations.iter() {
+			if v.signature.starts_with("C18|not-reported-reverted") {
+				rep.violation("C18|revert-not-tracked|cause=entry-restored-from-seed-has-no-kernel", &format!("[{}] {}", v.signature, v.what), case.clone());
+			} else {
+				rep.violation(&format!("{}|recipient-restored-from-seed", v.signature), &v.what, case.clone());
+			}
+		}
+		if probe.violations.is_empty() {
+			rep.count(&format!("judged-with-a-recipient-restored-from-seed:{}", after));
+		}
+		return;
+	}
 	let out = if relinked { outs.iter().find(|o| !o.is_coinbase && o.value == amount && o.root_key_id == e.parent_key_id) } else { outs.iter().find(|o| o.tx_log_entry == Some(e.id) && o.root_key_id == e.parent_key_id && !o.is_coinbase) };
 	if relinked {
 		// Known root cause (see known_findings.json, same as the open C04/C05 findings): an output record has one
@@ -87,7 +114,10 @@ fn judge_inner(w: &World, rep: &mut Report, e: &libwallet::TxLogEntry, out: Opti
 	let outs = wal.all_outputs().unwrap_or_default();
 	// (`out` was looked up in an earlier snapshot of the same records)
 	let out = out.and_then(|o| outs.iter().find(|x| x.key_id == o.key_id && x.mmr_index == o.mmr_index));
-	let kernel_on_chain = e.kernel_excess.map(|x| w.kernel_on_chain(&x)).unwrap_or(false);
+	let kernel_on_chain = match e.kernel_excess {
+		Some(x) => w.kernel_on_chain(&x),
+		None => case["kernel_excess"].as_str().and_then(unhex).map(|b| w.kernel_on_chain(&grin_util::secp::pedersen::Commitment::from_vec(b))).unwrap_or(false),
+	};
 	let out_in_utxo = out.map(|o| w.is_unspent(&wal.commit_of(o))).unwrap_or(false);
 	let info = match wal.info(false, 1) {
 		Ok(i) => i.1,
@@ -218,6 +248,20 @@ fn scenario(a: &Args, rep: &mut Report, rng: &mut Rng, si: usize) {
 		rep.inconclusive("payment not confirmed before the reorganisation");
 		return;
 	}
+	// Every fifth scenario (another fifth) the recipient's wallet is from here on one restored from its seed after
+	// the payment was confirmed
+	let mut restored = false;
+	if si % 5 == 2 {
+		let rdir = format!("{}/restored", dir);
+		if let Ok(rw) = Wallet::create(w.node.clone(), &rdir, "restored", MNEMONICS[1], "", false) {
+			if rw.scan(None, false).is_ok() {
+				w.wallets[1] = rw;
+				restored = true;
+				rep.count("recipient-restored-from-seed-after-the-payment-confirmed");
+			}
+		}
+	}
+	let kernel_hex = tx.kernels().get(0).map(|k| k.excess.to_hex()).unwrap_or_default();
 	// Every fifth scenario the recipient has meanwhile reserved the received output for a payment of its own (and,
 	// half of the time, cancelled that payment again): the output record then points at the recipient's own sent
 	// entry, no longer at the received one.
@@ -271,7 +315,7 @@ fn scenario(a: &Args, rep: &mut Report, rng: &mut Rng, si: usize) {
 			return;
 		}
 		main_tip = new_head;
-		let case = json!({"job":"c18","scenario": si, "flip": flip, "fork_point_height": fork_height, "receiving_block_height": below + 1, "fork_length": len, "fork_contains_payment": with_tx, "look_during_reorg": format!("{:?} at block {}", mid_look, mid_at), "amount": amount.to_string(), "received_output_relinked_by_an_own_send": relinked});
+		let case = json!({"job":"c18","scenario": si, "flip": flip, "fork_point_height": fork_height, "receiving_block_height": below + 1, "fork_length": len, "fork_contains_payment": with_tx, "look_during_reorg": format!("{:?} at block {}", mid_look, mid_at), "amount": amount.to_string(), "received_output_relinked_by_an_own_send": relinked, "recipient_restored_from_seed": restored, "kernel_excess": kernel_hex});
 		rep.eval();
 		if with_tx {
 			// mined again: an ordinary refresh must report it confirmed and spendable
